@@ -1,3 +1,4 @@
+import SFV.Gen.StepGuards
 /-! Pieces of `BaseStep` shared by the step models (C01 gather, C06 loop output):
     the statuses a termination token carries, `_reduce_statuses` on `[status, token.value]`, `_get_status`. -/
 namespace SFV
@@ -6,30 +7,38 @@ namespace SFV
 inductive Status | skipped | completed | failed | cancelled | recovered
 deriving DecidableEq, Repr
 
-/-- the `match` inside the loop of `_reduce_statuses`: `some s` = early `return s` -/
-def Status.early : Status → Option Status
-  | .failed => some .failed
-  | .cancelled => some .cancelled
-  | _ => none
+/-- the `Status` number of a status (the enum values are extracted from the source) -/
+def Status.code : Status → Nat
+  | .skipped => Gen.statusSkipped
+  | .completed => Gen.statusCompleted
+  | .failed => Gen.statusFailed
+  | .cancelled => Gen.statusCancelled
+  | .recovered => Gen.statusRecovered
+
+def Status.ofCode (c : Nat) : Status :=
+  if c = Gen.statusSkipped then .skipped
+  else if c = Gen.statusFailed then .failed
+  else if c = Gen.statusCancelled then .cancelled
+  else if c = Gen.statusRecovered then .recovered
+  else .completed
+
+/-- the loop of `_reduce_statuses` over the extracted arms (`SFV/Gen/StepGuards.lean`, regenerated from the source on every
+    run): early returns, skipped counter, recovered flag, final if-chain -/
+def reduceLoop (len : Nat) : List Nat → Nat → Bool → Nat
+  | [], ns, rec => Gen.reduceFinal rec ns len
+  | c :: r, ns, rec =>
+      match Gen.reduceRet c with
+      | some x => x
+      | none => reduceLoop len r (if Gen.reduceSkips c then ns + 1 else ns) (rec || Gen.reduceRecovers c)
+
+/-- `_reduce_statuses(statuses)` -/
+def reduceStatuses (l : List Status) : Status := Status.ofCode (reduceLoop l.length (l.map Status.code) 0 false)
 
 /-- `_reduce_statuses([a, b])` -/
-def reduce2 (a b : Status) : Status :=
-  match a.early with
-  | some s => s
-  | none =>
-    match b.early with
-    | some s => s
-    | none =>
-      if a = .recovered ∨ b = .recovered then .recovered
-      else if a = .skipped ∧ b = .skipped then .skipped
-      else .completed
+def reduce2 (a b : Status) : Status := reduceStatuses [a, b]
 
 /-- `BaseStep._get_status(status)`; `outEmpty` = some output port has an empty `token_list` -/
-def getStatus (status : Status) (outEmpty : Bool) : Status :=
-  if status = .failed then status
-  else if status = .recovered then .completed
-  else if outEmpty then .skipped
-  else status
+def getStatus (status : Status) (outEmpty : Bool) : Status := Status.ofCode (Gen.getStatusGen status.code outEmpty)
 
 def Status.render : Status → String
   | .skipped => "SKIPPED" | .completed => "COMPLETED" | .failed => "FAILED"
